@@ -21,6 +21,21 @@ func GenInProc(kind string, args []string, tweak func(o *generator.GenOpts)) (er
 			err = fmt.Errorf("panic: %v\n%s", r, debug.Stack())
 		}
 	}()
+	// run from the root of the module that holds the target, as the documentation asks (generation resolves import
+	// paths relative to the working directory: run from elsewhere, the real CLI drops imports of generated packages)
+	for i, a := range args {
+		if a == "-t" && i+1 < len(args) {
+			dir := args[i+1]
+			for d := dir; d != filepath.Dir(d); d = filepath.Dir(d) {
+				if _, serr := os.Stat(filepath.Join(d, "go.mod")); serr == nil {
+					if old, werr := os.Getwd(); werr == nil && os.Chdir(d) == nil {
+						defer os.Chdir(old)
+					}
+					break
+				}
+			}
+		}
+	}
 	opts, gen, e := generate.VerifOpts(kind, args)
 	if e != nil {
 		return e
